@@ -483,6 +483,21 @@ class Gen:
 
 
 # ---------------------------------------------------------------------------------------------------------------------
+def long_block_program(rng: random.Random, rom: str = "low") -> dict:
+    """One contiguous block made of many thousands of byte-producing statements (a big table written one entry per line, a bank of
+    routines): state that accumulates per statement of a block - pending chunks, counters, caches - is only reached by such sources.
+    Drawn from its own generator so that the draws of the other families stay as they are."""
+    start = 0xC00000 if rom == "high" else 0x008000
+    n = rng.choice([4100, 8200, 9000, 12000])
+    body: list = [{"k": "org", "e": E(start + rng.choice([0, 0x10]))}]
+    nop = {"k": "ins", "m": "nop", "shape": "imp", "sz": "", "e": None}
+    for i in range(n):
+        r = i % 7
+        body.append(nop if r == 3 else {"k": "data", "d": "dw", "es": [E((i * 257) & 0xFFFF)]} if r == 5 else {"k": "data", "d": "db", "es": [E(i & 0xFF)]})
+    body += [{"k": "label", "n": "lbend"}, {"k": "data", "d": "dl", "es": [E("lbend")]}]
+    return {"prog": body, "files": {}, "tables": {}, "rom": rom, "family": f"stress:many_statements_in_one_block[{n}]"}
+
+
 def stress_program(rng: random.Random) -> dict:
     """Programs that are large in one dimension (the sizes real projects reach, which small random programs never do):
     many labels, deep nesting, long loops, many applications, long identifiers, long lists, many position moves, many scopes."""
